@@ -179,6 +179,11 @@ func timersScenarios(maxReq int, thorough bool) []tScenario {
 func C17mcrew(c *vh.Ctx) {
 	bound := c.Pick(2, 3)
 	if c.Replay != "" {
+		var hc hangCase
+		if c.LoadReplay(&hc) == nil && hc.Family != "" {
+			c17Hangup(c)
+			return
+		}
 		var cs c17Case
 		if c.LoadReplay(&cs) != nil {
 			return
@@ -194,13 +199,16 @@ func C17mcrew(c *vh.Ctx) {
 	if os.Getenv("VERIF_RACE") == "1" {
 		maxReq, bound = 2, 2 // the race pass re-runs a reduced exploration under ThreadSanitizer
 	}
+	if os.Getenv("VERIF_RACE") != "1" {
+		c17Hangup(c)
+	}
 	scs := timersScenarios(maxReq, !c.Quick())
 	c.Bound("requests_max", maxReq)
 	c.Bound("deviations_max", bound)
 	if c.Shard == 0 {
 		c.Count("scenarios", int64(len(scs)))
 	}
-	c.Rule("mcrew Timers: every request sequence up to the bound over {make(1,10ms), make(1,1h), make(2,10ms), cancel(1), cancel(2), report-pending} starting with a make, crossed with requests issued from inside the handler of the first firing {none, make(1), cancel(1)+make(1), report-pending}; for each, every schedule of requester, timer goroutines and timer-fire events with at most k deviations from the default (run the current thread; fire timers in due order when nothing else can run); virtual time; a per-id monitor automaton checks every execution. states = scenarios, transitions = scheduler steps, traces = schedules; non-trivial = schedule with at least one firing.")
+	c.Rule("mcrew Timers: every request sequence up to the bound over {make(1,10ms), make(1,1h), make(2,10ms), cancel(1), cancel(2), report-pending} starting with a make, crossed with requests issued from inside the handler of the first firing {none, make(1), cancel(1)+make(1), report-pending}; for each, every schedule of requester, timer goroutines and timer-fire events with at most k deviations from the default (run the current thread; fire timers in due order when nothing else can run); virtual time; a per-id monitor automaton checks every execution. states = scenarios, transitions = scheduler steps, traces = schedules; non-trivial = schedule with at least one firing. Sessions that end (real clock, outside the scheduler): a timer (300 ms, 1 s) made with a context that is then cancelled, next to 0 or 2 timers of a session that goes on, followed by nothing / a make under the same id by another session / a cancel by another session: within 10 s the timer is either retired (gone from the pending set, never fires, id reusable - the reused timer fires exactly once) or kept (then it fires once when due); the other session's timers stay pending.")
 	for i, sc := range scs {
 		if !c.Mine(uint64(i)) {
 			continue
